@@ -1,0 +1,15 @@
+//go:build verif
+
+// Package verifhook is a no-op observation point used by the external
+// verification harness. With the `verif` build tag it forwards to OnPoint;
+// without it Point is an empty function.
+package verifhook
+
+// OnPoint, when set, is called synchronously at each Point.
+var OnPoint func(name string, v int64)
+
+func Point(name string, v int64) {
+	if OnPoint != nil {
+		OnPoint(name, v)
+	}
+}
